@@ -83,6 +83,7 @@ func init() {
 	register(&Spec{
 		ID: "C06", World: "NODE",
 		New:        func() dsim.World { return &c06Switch{} },
+		Warm:       []func() dsim.World{func() dsim.World { return &c06Quic{} }, func() dsim.World { return &c06World{prop: "C06"} }},
 		Cfg:        dsim.Config{MaxChaosSteps: 120, MaxStableSteps: 3000, Horizon: 5 * time.Second},
 		Real:       []string{"transport/controller.Controller (HandleLinkEstablished, HandleLinkLost, flushEstablishedLink, GetPeerLinks, EstablishLinkWithPeer resolver, establishedLink)", "controllerbus bus + directive controller", "peer controller", "QUIC scenario (1 run in 12): transport/common/quic.Transport (HandleSession usurp, handleLinkLost, address table), pconn.Transport, quic Link, quic-go and crypto/tls, under the real controller"},
 		Stub:       []string{"NODE scenario: simlink transport: link objects and their callbacks are produced by the harness (a well-behaved link: one loss report per Close)", "util/broadcast lock instrumented (scheduling points, holder parking)", "QUIC scenario: net.PacketConn endpoints on the simulator's datagram network; three dialers share one source address"},
